@@ -74,11 +74,11 @@ type wscenario struct {
 	InitCap    int        `json:"init_cap"`
 	ShrinkUs   int        `json:"shrink_us"` // QueueShrinkDelay: <0 immediate, 0 default (1 s)
 	Prod       [2][]wcall `json:"prod"`
-	WriteUs    int        `json:"write_us"`     // duration of a transport call
-	StallUs    int        `json:"stall_us"`     // duration of the FIRST transport call (slow-consumer scenarios)
-	FailAt     int        `json:"fail_at"`      // k-th transport call fails (0 = none)
-	CloseEarly bool       `json:"close_early"`  // closer runs concurrently with the producers
-	CloseUs    int        `json:"close_us"`     // ... after this delay
+	WriteUs    int        `json:"write_us"`    // duration of a transport call
+	StallUs    int        `json:"stall_us"`    // duration of the FIRST transport call (slow-consumer scenarios)
+	FailAt     int        `json:"fail_at"`     // k-th transport call fails (0 = none)
+	CloseEarly bool       `json:"close_early"` // closer runs concurrently with the producers
+	CloseUs    int        `json:"close_us"`    // ... after this delay
 	Flush      bool       `json:"flush"`
 	Twice      bool       `json:"close_twice"`
 }
@@ -159,6 +159,11 @@ func jitter(j int) {
 
 var errInjected = errors.New("verif: injected transport error")
 
+// quiesceWait bounds the liveness clause: typical completion is a few milliseconds.
+const quiesceWait = 5 * time.Second
+
+var stuckSeen atomic.Int64
+
 type wrun struct {
 	sc     wscenario
 	rec    *wrec
@@ -207,6 +212,7 @@ func resName(code uint32) string {
 type wresult struct {
 	evs       []*wev
 	stuck     bool // quiescence deadline passed with accepted items unwritten
+	stuckAt   int  // ... items delivered at that moment
 	runLeak   bool // run() did not return after close
 	panicked  any
 	accepted  int
@@ -292,7 +298,11 @@ func runScenario(sc wscenario) (out wresult) {
 	if !sc.CloseEarly {
 		// liveness clause, bounded: with the producers done and nothing closed, everything accepted reaches the
 		// transport (timer mode: unless a slow answer returned before scheduling the flush -- see Writer.tla).
-		deadline := time.Now().Add(5 * time.Second)
+		wait := quiesceWait
+		if stuckSeen.Load() >= 3 {
+			wait = 300 * time.Millisecond // a broken writer was already demonstrated: do not spend 5 s on every run
+		}
+		deadline := time.Now().Add(wait)
 		for time.Now().Before(deadline) {
 			if w.failed.Load() || w.nwrit.Load() >= accepted.Load() {
 				break
@@ -302,6 +312,8 @@ func runScenario(sc wscenario) (out wresult) {
 		if !w.failed.Load() && w.nwrit.Load() < accepted.Load() {
 			if !(sc.Mode == "timer" && slow.Load()) {
 				out.stuck = true
+				out.stuckAt = int(w.nwrit.Load())
+				stuckSeen.Add(1)
 			}
 		} else if !w.failed.Load() {
 			out.quiesceOK = true
@@ -675,8 +687,8 @@ func writerRuns(in json.RawMessage, res *vh.Result) error {
 			completed = 0
 		}
 		if out.stuck {
-			res.Violate("C12", "writer:stuck:"+sc.Mode, fmt.Sprintf("producers finished, nothing closed or failed, but only %d of %d accepted items reached the transport within 5 s -- %s",
-				stats["delivered"], out.accepted, vh.J(sc)), replay)
+			res.Violate("C12", "writer:stuck:"+sc.Mode, fmt.Sprintf("producers finished, nothing closed or failed, but only %d of %d accepted items had reached the transport when the wait (%v) ended -- %s",
+				out.stuckAt, out.accepted, quiesceWait, vh.J(sc)), replay)
 			completed = 0
 		}
 		for _, d := range drift {
